@@ -1,7 +1,7 @@
 """Generator of (source unit expression, target unit expression) pairs of equal dimension from
 the C04 space: products of integer powers (|e| <= 3, <= 3 factors per side) of registered
 offset-free named units with registered prefixes."""
-from .common import namespace, pools
+from .common import namespace, pools, shape_zoo
 
 
 class Gen:
@@ -18,6 +18,16 @@ class Gen:
         self.bydim = {}
         for u in self.units:
             self.bydim.setdefault(ns[u].dimension, []).append(u)
+        # zoo shapes that involve no temperature scale, grouped by dimension (pairs of one group are legitimate conversion requests)
+        self.zoo = {}
+        for s in shape_zoo(ns):
+            try:
+                u = eval(s, ns)
+                if all(f not in self.scales and f.dimension is not measured.Temperature for f in u.factors) and u.prefix.base in (0, 10):
+                    self.zoo.setdefault(u.dimension, []).append(s)
+            except Exception:
+                pass
+        self.zoo = {d: v for d, v in self.zoo.items() if len(v) > 1}
 
     def factor(self, u, e, prefix=True):
         if prefix and self.rng.random() < 0.3:
@@ -26,6 +36,10 @@ class Gen:
 
     def pair(self):
         rng = self.rng
+        if self.zoo and rng.random() < 0.15:
+            d = rng.choice(sorted(self.zoo, key=str))
+            a, b = rng.sample(self.zoo[d], 2)
+            return a, b
         k = rng.choice([1, 1, 2, 2, 3])
         src, dst = [], []
         for _ in range(k):
